@@ -8,6 +8,7 @@ import TypelibModel.Drv.Core
 import TypelibModel.Model.Slotted
 open Lean
 namespace Typelib.Drv
+namespace SlottedDrv   -- helpers in a namespace of their own (other Drv files share `Typelib.Drv`)
 open Typelib.Slotted
 
 def jStrList (j : Json) : Except String (List Str) :=
@@ -53,6 +54,9 @@ def outcomeToJson : Outcome → Json
   | .notDataclass => Json.mkObj [("err", .str "notDataclass")]
   | .creationError e => Json.mkObj [("err", .str (cerrToString e))]
   | .envError => Json.mkObj [("err", .str "env")]
+
+end SlottedDrv
+open Typelib.Slotted SlottedDrv
 
 def handleSlotted (st : St) (op : String) (j : Json) : Option (Except String (St × Json)) :=
   match op with
